@@ -69,6 +69,17 @@ impl Prop for C01 {
     fn check(&self, case: &GCase, st: &mut Stats) -> Outcome {
         let mut spec_l = case.spec.clone();
         spec_l.layout = layout_kind_of(case.layout_mode);
+        if case.lines {
+            // the same language spelled with redundant EMPTY references inside alternatives
+            for (i, r) in spec_l.rules.iter_mut().enumerate() {
+                for (k, a) in r.alts.iter_mut().enumerate() {
+                    if !a.syms.is_empty() && (i + k) % 2 == 0 {
+                        a.empties = vec![((i + k) % (a.syms.len() + 1)) as u8];
+                    }
+                }
+            }
+            st.class("redundant-EMPTY-references");
+        }
         let spec = &spec_l;
         st.class(&format!("layout-mode-{}", case.layout_mode));
         let text = spec.render();
